@@ -182,6 +182,8 @@ mod peer_connection_service;
 mod security;
 mod signature_verification_service;
 mod synchronisation;
+#[cfg(discret_verif)]
+pub mod verif;
 
 use thiserror::Error;
 
